@@ -274,7 +274,7 @@ class PathCond(Domain):
         return (new, env, facts)
 
     def bind(self, target, s, source=None):
-        stored = {x.id for x in ast.walk(target) if isinstance(x, ast.Name)}
+        stored = {x.id for x in ast.walk(target) if isinstance(x, ast.Name)} if isinstance(target, ast.AST) else set()
         if any(x.startswith('notnone:') and x[8:] in stored for x in s[2]):
             return (s[0], s[1], frozenset(x for x in s[2] if not (x.startswith('notnone:') and x[8:] in stored)))
         return s
